@@ -456,9 +456,9 @@ func VerifC06MergeKeysToJSON() {
 	js := string(b)
 	verifObserve("json", js)
 	verifAssert(!strings.Contains(js, "S(<<)"), "C06/json-object-keeps-a-merge-key "+label)
-	if src == "explicit-also-merged" || src == "merged-in-both-listed" || src == "merged-through-the-merged-map-in-both-listed" {
+	if src == "explicit-also-merged" && pos != 0 {
 		verifCover("C06/merge-json/recorded-class")
-		return // recorded findings of C13 (an explicit key before <<, list order on traversal): not re-reported here
+		return // the recorded finding of C13 (an explicit key written before << loses to the merged one) is not re-reported here
 	}
 	member := "S(" + q + "):I(" + want + ")"
 	if want == "" {
